@@ -159,12 +159,12 @@ CHECKS = {
         "count, synced, only then database pages incl. spills, later headers patched beyond the first 28 bytes, one commit operation: unlink / truncate / zero the header). For EVERY "
         "transaction of that shape, EVERY crash point and EVERY torn last write: a database file that has been touched and whose transaction has not reached its commit point lies next "
         "to a journal that validJournal accepts (C09_crash), and such a journal without a live RESERVED lock makes every page request of every transaction fail (C09_hot_journal_refuses); "
-        "journals shorter than a header are not hot (C09_benign). Every run: a real SQLite writer that spills is killed on entering every pwrite64 / fdatasync / ftruncate / unlink on the "
+        "journals shorter than a header are not hot (C09_benign); once the commit operation has taken effect, even partly, what is left is not hot at any later crash point (C09_committed); "
+        "so every crash state is one of: hot journal, untouched file, committed file without a hot journal (C09_every_crash_state). Every run: a real SQLite writer that spills is killed on entering every pwrite64 / fdatasync / ftruncate / unlink on the "
         "two files (strace injection), torn writes are synthesised, DELETE / TRUNCATE / PERSIST, several page sizes, 512- and 4096-byte sectors; sqlittle must fail or return exactly what "
         "real SQLite returns after recovering a copy; one handle across the crash; benign journals. The real writer's operation order is checked against the theorem's protocol automaton.",
    note="PARTIAL: process-kill semantics (completed writes persist in order); power-loss reordering is outside the property. That SQLite's recovery of a pair whose journal is not hot returns the "
-        "file as it is, and that the file then is the pre- or post-image, is validated by the oracle on every crash state, not proved. The commit-point side (journal gone / truncated / zero "
-        "header => not hot) is covered by examples and by the runs.",
+        "file as it is, and that the file then is the pre- or post-image, is validated by the oracle on every crash state, not proved (the model's cmod / cdone flags stand for it).",
    technique="Coq proof (protocol automaton invariant over all crash prefixes and torn writes) + strace kill-at-every-syscall differential vs SQLite recovery",
    design="DESIGN.md section 6, C09"),
  "C10": dict(
